@@ -47,15 +47,16 @@ type UDPCase struct {
 	Phase    string `json:"phase"`    // fresh (nothing received yet) | established
 	Timeouts string `json:"timeouts"` // short | default
 	TwoSess  bool   `json:"two_sessions"`
-	Src      *Src   `json:"src"`       // nil: reference execution
-	Content  string `json:"content"`   // garbage empty valid-rtp valid-rtcp-sr valid-rtcp-rr
-	Target   string `json:"target"`    // rtp | rtcp : destination socket of the receiving side
-	Silence  bool   `json:"silence"`   // run the silence / timeout phase
-	NegLimit int    `json:"neg_limit"` // seconds of wall clock before "it did not happen" is concluded (hang detector)
+	V6       bool   `json:"peer_ipv6,omitempty"` // the negotiated peer is [::1] (raw sides only)
+	Src      *Src   `json:"src"`                 // nil: reference execution
+	Content  string `json:"content"`             // garbage empty valid-rtp valid-rtcp-sr valid-rtcp-rr
+	Target   string `json:"target"`              // rtp | rtcp : destination socket of the receiving side
+	Silence  bool   `json:"silence"`             // run the silence / timeout phase
+	NegLimit int    `json:"neg_limit"`           // seconds of wall clock before "it did not happen" is concluded (hang detector)
 }
 
 func (c UDPCase) refKey() string {
-	return fmt.Sprintf("%s|any=%v|auto=%v|%s|%s|two=%v|sil=%v", c.Side, c.AnyPort, c.Auto, c.Phase, c.Timeouts, c.TwoSess, c.Silence)
+	return fmt.Sprintf("%s|any=%v|auto=%v|%s|%s|two=%v|sil=%v|v6=%v", c.Side, c.AnyPort, c.Auto, c.Phase, c.Timeouts, c.TwoSess, c.Silence, c.V6)
 }
 
 func (c UDPCase) sideName() string {
@@ -65,6 +66,9 @@ func (c UDPCase) sideName() string {
 	}
 	if c.Auto {
 		s += "-auto"
+	}
+	if c.V6 {
+		s += "-ipv6-peer"
 	}
 	return s
 }
@@ -368,7 +372,7 @@ func (w *world) rawPublisher(path string, rtpPort int) (*sysx.Peer, error) {
 	if rtpPort == peerRTPPort {
 		rtcpPort = rawRTCPPort
 	}
-	p, err := w.env.Dial(nil)
+	p, err := w.env.Dial(w.dialSrc())
 	if err != nil {
 		return nil, herr("dial: %v", err)
 	}
@@ -575,7 +579,7 @@ func (w *world) buildServerPlay() error {
 	if err != nil {
 		return err
 	}
-	p, err := w.env.Dial(nil)
+	p, err := w.env.Dial(w.dialSrc())
 	if err != nil {
 		return herr("dial: %v", err)
 	}
@@ -719,7 +723,20 @@ func (w *world) buildClientPlay() error {
 
 func legitPayload(seq uint16) []byte { return []byte{0x65, 'L', byte(seq >> 8), byte(seq)} }
 func foreignPayload(k int) []byte    { return []byte{0x65, 'F', byte(k >> 8), byte(k)} }
-func (w *world) rightIP() net.IP     { return net.IPv4(127, 0, 0, 1) }
+func (w *world) rightIP() net.IP {
+	if w.c.V6 {
+		return net.ParseIP("::1")
+	}
+	return net.IPv4(127, 0, 0, 1)
+}
+
+// dialSrc is the source address of the raw peer's control connection (nil: the default 127.0.0.1).
+func (w *world) dialSrc() *net.TCPAddr {
+	if w.c.V6 {
+		return &net.TCPAddr{IP: net.ParseIP("::1"), Port: 50030}
+	}
+	return nil
+}
 func ntp64(t time.Time) uint64 {
 	s := uint64(t.Unix()) + 2208988800
 	f := uint64(t.Nanosecond()) << 32 / 1000000000
@@ -760,7 +777,11 @@ func (w *world) resolve(s *Src, target string) *net.UDPAddr {
 	var ip net.IP
 	switch s.IP {
 	case "right16":
-		ip = net.IPv4(127, 0, 0, 1)
+		ip = w.rightIP()
+	case "v6other": // another global IPv6 address
+		ip = net.ParseIP("fd00:c19::2")
+	case "v6other-low": // differs from ::1 in the last byte only
+		ip = net.ParseIP("::2")
 	case "right-mapped":
 		ip = net.ParseIP("::ffff:127.0.0.1")
 	case "right4":
